@@ -52,7 +52,7 @@ CLAIMED = {
          "For generated molecules of every archetype, with Schulz-Zimm distributions (default call) and other families (expect_schulz_zimm_distribution=False), an expected multigraph is built from the AST: one node per atom with element, charge, aromaticity; static edges in both directions with bond order; stochastic edges with the partner's or the listed weight; termination edges repeat unit -> end group; transition edges between consecutive elements respecting the terminals; nothing leaves an end group. Edge multisets must be equal - no edge missing, none surplus.",
          "Trusted: reference fragments and compatibility rule; all-zero edges ignored on both sides.", "DESIGN.md §2 C17"),
  "C18": ("invariant over generated structures: residue partition of atom-graph generations (creation-order hint verified, constraint search fallback) against the stochastic atom graph; determinism under equal seeds",
-         "Schulz-Zimm molecules of every archetype are generated through AtomGraph with seeded generators; every generated atom names its stochastic node; the atoms must partition into whole token copies with all atoms and internal bonds, every bond between copies must correspond to a non-static edge of the stochastic atom graph between those nodes with the same bond order, no attachment atom may carry more inter-residue bonds than descriptors, copies form a tree, the graph is connected, to_mol() sanitises, at most 200000 random choices are made, and two generations with equal seeds give equal molecules.",
+         "Schulz-Zimm molecules of every archetype are generated through AtomGraph with seeded generators; every generated atom names its stochastic node; the atoms must partition into whole token copies with all atoms and internal bonds, every bond between copies must correspond to a non-static edge of the stochastic atom graph between those nodes with the same bond order, copies form a tree, the graph is connected, to_mol() sanitises, at most 200000 random choices are made, and two generations with equal seeds give equal molecules.",
          "Trusted: 'stochastic_node' node attribute (public), reference fragments, RDKit sanitisation.", "DESIGN.md §2 C18"),
  "C19": ("generated linear directed chains queried against a closed-form reference law, with metamorphic checks (atom renumbering, sum over lengths, foreign molecules)",
          "Molecules of 1-2 blocks of one directed repeat unit (generated chemistry incl. symmetric and locally symmetric tokens), prefix or end-group start, suffix or end-group end, six families; for every chain length up to a reference tail of 1e-9 the reported ensemble probability must equal the product of the closed-form window probabilities, must be the same for RDKit's canonical and two random atom orders, the values must sum to 1, and foreign molecules (changed atom, a block without repeat unit) must get 0. Two recorded defects of get_ensemble_prob are reported as KNOWN-FINDING by structural signature.",
